@@ -499,6 +499,8 @@ type SimStream struct {
 	failed     bool
 	closed     bool
 	zeroStreak int
+	eofErr     error // what the end of the stream is reported with
+	readErr    error // what a read_error fault returns
 
 	Info StreamInfo
 }
@@ -511,6 +513,7 @@ type StopInfo struct {
 	Whole       int    // intact frames wholly delivered before the first failure point
 	BadFrameEnd int    // end offset of the first corrupted frame delivered before Stop (0 = none)
 	BadFrame    int    // its index, -1 = none
+	ErrKind     string // error flavour of the fault at Stop
 }
 
 // WantErr reports whether a decoder that reads the stream to its end must
@@ -547,6 +550,7 @@ func ComputeStop(l Layout, faults []Fault, id string, openIdx int) StopInfo {
 			if f.Offset < si.Stop || (f.Offset == si.Stop && si.Kind == "") {
 				si.Stop = f.Offset
 				si.Kind = f.Kind
+				si.ErrKind = f.ErrKind
 			}
 		}
 	}
@@ -582,6 +586,15 @@ func newSimStream(d *Daemon, id string, openIdx int, l Layout, follow bool, _ ma
 	}
 	si := ComputeStop(l, d.faults, id, openIdx)
 	s.stop, s.stopKind = si.Stop, si.Kind
+	s.eofErr, s.readErr = io.EOF, fmt.Errorf("read %s: %w", id, ErrInjected)
+	switch {
+	case si.Kind == FaultCut && si.ErrKind == "unexpected":
+		s.eofErr = io.ErrUnexpectedEOF
+	case si.Kind == FaultReadError && si.ErrKind == "deadline":
+		s.readErr = context.DeadlineExceeded
+	case si.Kind == FaultReadError && si.ErrKind == "closed":
+		s.readErr = io.ErrClosedPipe
+	}
 	if si.Kind == FaultCut {
 		s.Info.CutClass = si.Class
 	}
@@ -635,12 +648,12 @@ func (s *SimStream) Read(p []byte) (int, error) {
 	if s.failed {
 		d.ev("read_err", s.Info.ID, s.off, 0)
 		d.mu.Unlock()
-		return 0, fmt.Errorf("read %s: %w", s.Info.ID, ErrInjected)
+		return 0, s.readErr
 	}
 	if s.eof {
 		d.ev("read_eof", s.Info.ID, s.off, 0)
 		d.mu.Unlock()
-		return 0, io.EOF
+		return 0, s.eofErr
 	}
 	if s.off >= s.stop {
 		switch s.stopKind {
@@ -650,7 +663,7 @@ func (s *SimStream) Read(p []byte) (int, error) {
 			d.FaultsFired[FaultReadError]++
 			d.ev("read_err", s.Info.ID, s.off, 0)
 			d.mu.Unlock()
-			return 0, fmt.Errorf("read %s: %w", s.Info.ID, ErrInjected)
+			return 0, s.readErr
 		case FaultCut:
 			d.FaultsFired[FaultCut]++
 		}
@@ -665,7 +678,7 @@ func (s *SimStream) Read(p []byte) (int, error) {
 		s.Info.EOFDelivered = true
 		d.ev("read_eof", s.Info.ID, s.off, 0)
 		d.mu.Unlock()
-		return 0, io.EOF
+		return 0, s.eofErr
 	}
 	maxn := s.stop - s.off
 	if maxn > len(p) {
@@ -729,7 +742,7 @@ func (s *SimStream) Read(p []byte) (int, error) {
 			s.eof = true
 			s.Info.EOFDelivered = true
 			s.Info.DataWithEOF = true
-			err = io.EOF
+			err = s.eofErr
 		}
 	}
 	d.ev("read", s.Info.ID, s.off, n)
